@@ -555,12 +555,21 @@ class SimpleFormula(
         ]
 
         # Filter out constants like `contr` that are already present in the
-        # TRANSFORMS namespace.
+        # TRANSFORMS namespace (but not names that are factors in their own
+        # right: a bare `scale` can only be a data column called "scale").
         from formulaic.transforms import TRANSFORMS
+
+        lookups = {
+            factor.expr
+            for term in self.__terms
+            for factor in term.factors
+            if factor.eval_method is Factor.EvalMethod.LOOKUP
+        }
 
         return set(
             filter(
-                lambda variable: variable.split(".", 1)[0] not in TRANSFORMS,
+                lambda variable: variable in lookups
+                or variable.split(".", 1)[0] not in TRANSFORMS,
                 Variable.union(variables),
             )
         )
